@@ -48,6 +48,18 @@ META = {
         "rule": "shape family on a length-8 host x every i x guest lengths {1,2,3}: insert;delete and embed;delete; cut sets {},{3},{0},{8},{2,5},{2,2},{1,4,6},{0,4,8},{1,3,5,7} through slice*;concat. All non-trivial; distinct case lines.",
         "assumptions": ["exact restoration is proved for contiguous locations; multi-part locations by correspondence + oracle at denotation level"],
     },
+    "C08": {
+        "sections": ["Arith.Abs", "Arith.Max", "Arith.Compare"],
+        "rule": "regions of 1..3 (thorough 4) segments with lengths 0..3 and gaps 0..2 plus two 5-segment regions, each on both strands (and bare segments), x all five modifier forms with offsets in [-len-3,len+3] (two-offset forms on a step-2 grid); Modifier.Apply on all (h,t) in [0,6]^2 incl. the mirror law; modifier print/re-parse; 8 locator specifiers x 7 modifiers on a 5-feature table. Oracle: inside bounds the resized region denotes spliced[lo:hi] (positions and residues through Locate); outside bounds the first/last segment is extended outward.",
+        "assumptions": ["theorem covers single segments; Regions.Resize walk by exhaustive correspondence + oracle",
+                        "regexp selectors inside locators are exercised with literal keys/values only"],
+    },
+    "C09": {
+        "sections": ["Arith.Min", "Arith.Max"],
+        "rule": "exhaustive: every flat collection of 1..2 segments over [0,4]^2 (both orientations, also nested) and every triple over [0,3]; random: 1..6 regions x 1..4 segments, n<=14 (3000 quick / 200000 thorough); Minimize, InvertLinear, InvertCircular each. All cases non-trivial; distinct case lines.",
+        "assumptions": ["sort.Sort on BySegment is modelled as insertion sort: after flattening, ties under BySegment.Less are identical values, so every correct sort returns the same slice (theorem C09_order_independent proves uniqueness of the sorted permutation)",
+                        "InvertCircular is tied by correspondence + oracle; its theorem is not yet stated"],
+    },
 }
 
 
